@@ -1,6 +1,7 @@
 import Isotp.Basic
 import Isotp.Pdu
 import Isotp.Address
+import Isotp.Params
 import Isotp.Frame
 import Isotp.Layer
 import Isotp.Process
